@@ -76,3 +76,21 @@ claim("C20", "other",
       "tuple-arity flow + CFG dominance", "DESIGN.md §4 C20")
 for _p in ["C09", "C20"]:
     NA.pop(_p, None)
+claim("C04", "other",
+      "On the CFG of Reader.process_chunks the no-handler branch leads only to the next chunk (log statements only) and all 3 overrides delegate; 57 reader handlers compared with the RST/YAML layouts (width, count, byte order, signed bounds) and every documented chunk has a handler; section readers end in raise ReaderFinished on every normal path and rewind by exactly the header size write_chunk emits; loading=True at every reader attach site, append-only under loading (all attach_module paths), empty SEND appends None, only trailing empties stripped; short CVAL lists touch only named controllers; legacy fix-ups present. Decoding arbitrary foreign byte streams is declined.",
+      "trusted: vendored chunk iterator; RST/YAML as format description; sa/cfg.py",
+      "CFG branch analysis + documentation-vs-reader table diff + call-site census", "DESIGN.md §4 C04")
+claim("C08", "other",
+      "NARROW: decides table format and write discipline only — equality of the reconstructed graph/slot order with the saved one depends on the run-time graph shape and is not decided. Checked necessary conditions: SLNK/SLnK codec rows and elision guard; every path through one link of the end-of-file rebuild keeps each pair of parallel tables in step with cross-referencing values proved in the list-length domain (pass 1: 3 path shapes, pass 2: 7); census of all link-table writers.",
+      "trusted: sa/cfg.py path enumeration; C07's per-operation consistency of the state being saved",
+      "codec row parity + per-path parallel-table discipline", "DESIGN.md §4 C08")
+claim("C15", "other",
+      "NARROW: positional coupling only — value-type re-derivation and the stored user-controller values are not decided. The three sites naming the 96 user-defined controllers agree in name, order and numbering after the 5 generated controllers; label numbering 8+i ↔ chnm−8 and chnk = 8+MAX; embedded project via Project.read() / read_sunvox_file (recursion, C18 guard inherited); attach state written only by attach/detach and derived as 'first n'; reader recomputes attachment before applying values; module-row parity, raw inverse, option packing and sibling writers shared from C01/C05/C10/C11/C02.",
+      "trusted: ModuleMeta definition-order numbering (C13); sa/alg.py",
+      "three-site agreement + affine pair + census", "DESIGN.md §4 C15")
+claim("C17", "other",
+      "Census of 60 class-level and 2 module-level mutable values; 72 loads of class-level mutables (through self/cls/class name, in own and inherited methods, per subclass context) classified as read / copy / store / mutate / alias; class-level containers that are mutated anywhere (directly or via alias) must be re-bound per instance; class-level containers of stateful objects; constructors binding instance state to module-level objects; attributes mutated through self must be fresh per instance and subclass constructors must reach the base constructor; no mutable default arguments (28 scanned); descriptor objects from per-class tables written only by the metaclass (positive fixture kept); module registry writers frozen; clone() = load of freshly written bytes.",
+      "trusted: sharing arises only from class attributes, module globals, default arguments or explicit aliasing",
+      "escape analysis of class-/module-level mutables + freshness census", "DESIGN.md §4 C17")
+for _p in ["C04", "C08", "C15", "C17"]:
+    NA.pop(_p, None)
